@@ -38,6 +38,7 @@ CHECKS = {
     "C11": seq(["TestC11"], qchecks=60, tchecks=1500),
     "C12": seq(["TestC12"], qchecks=80, tchecks=1200),
     "C13": seq(["TestC13", "TestC13Race"], qchecks=200, tchecks=4000, qshards=4),
+    "C14": seq(["TestC14", "TestC14Window"], qchecks=1, tchecks=6, qshards=4, per_test={"TestC14Window": (3, 3, 9, 12)}),
     "C15": seq(["TestC15"], qchecks=12, tchecks=400, qshards=8),
     "C17": seq(["TestC17"]),
     "C18": seq(["TestC18Seq", "TestC18Race"], per_test={"TestC18Race": SCRIPT}),
